@@ -810,7 +810,7 @@ def c03(ctx):
                      "'all byte strings' is sampled, not enumerated (DESIGN section 6)")
 
 
-EXTRA["C01"] = ["C06_Intact", "C06_Genuine", "C06_AtMostOnce", "C12_Ppi"]   # "payload bytes and payload protocol identifier ... nothing lost, duplicated, altered"
+EXTRA["C01"] = ["C06_Intact", "C06_Genuine", "C06_AtMostOnce", "C12_Ppi", "C02_Delivered"]   # "payload bytes and payload protocol identifier ... nothing lost, duplicated, altered"
 EXTRA["C06"] = ["C01_SkippedReliable", "C02_Delivered", "C01_ReadNext"]   # fully reliable streams next to partially reliable ones
 EXTRA["C07"] = ["C01_SkippedReliable", "C02_Delivered", "C01_ReadNext", "C06_Genuine"]   # "never block or destroy anything else": the reliable traffic next to it
 EXTRA["C08"] = ["C09_NoLeak"]   # a shutdown that leaves goroutines blocked for good
